@@ -66,6 +66,44 @@ def ident_ok(cell):
 
 
 @spec
+def groups_ok():
+    """Free identities of every group are within [0, count)."""
+    return forall(lambda g, i: implies(alive(g) and cls_is(g, 'IdentityGroup') and i in g.available,
+                                       0 <= i and i < g.count), 'IdentityGroup', 'Int')
+
+
+@spec
+def held_ok(cell):
+    """Within a group no two instances hold the same identity, and a held identity is not free."""
+    return (forall(lambda n, m: implies(n in cell.apps and m in cell.apps and n != m and
+                                        cell.apps[n].identity_group_ref is not None and
+                                        cell.apps[n].identity_group_ref == cell.apps[m].identity_group_ref and
+                                        cell.apps[n].identity is not None and cell.apps[m].identity is not None,
+                                        cell.apps[n].identity != cell.apps[m].identity), 'Name', 'Name') and
+            forall(lambda n: implies(n in cell.apps and cell.apps[n].identity_group_ref is not None and
+                                     cell.apps[n].identity is not None,
+                                     cell.apps[n].identity not in cell.apps[n].identity_group_ref.available), 'Name'))
+
+
+@spec
+def ident_inv(cell):
+    return groups_ok() and held_ok(cell)
+
+
+@spec
+def in_range_ok(cell):
+    return forall(lambda n: implies(n in cell.apps and cell.apps[n].identity is not None and
+                                    cell.apps[n].identity_group_ref is not None,
+                                    cell.apps[n].identity < cell.apps[n].identity_group_ref.count), 'Name')
+
+
+@spec
+def unplaced_free(a):
+    """C05 clause 4 for one instance: not placed => holds no identity."""
+    return a.server is not None or a.identity_group_ref is None or a.identity is None
+
+
+@spec
 def cell_inv(cell, servers):
     return (apps_ok(cell) and srv_ok(servers) and link_ok(cell, servers) and back_ok(cell, servers) and
             ident_ok(cell))
@@ -215,6 +253,11 @@ def evicted_ok(evicted, queue, servers, lo):
 
 
 @spec
+def no_renew(cell):
+    return forall(lambda n: implies(n in cell.apps, not cell.apps[n].renew), 'Name')
+
+
+@spec
 def renew_ok(queue, lo):
     """No renewal is pending.  `renew` is written by no production code except line 1736 of this very
     function, which only re-arms it when it was already set: it is False in every reachable state
@@ -246,23 +289,37 @@ contract(M + ':Cell._find_placements',
                 'evicted': 'Dict[Application,Tuple[Server,Opt[Real]]]',
                 'reversed_queue': 'List[Application]'},
          requires=['in_cell(self)', 'queue_ok(queue, self)', 'cell_inv(self, servers)', 'cycle_ctx(servers)',
-                   'renew_ok(queue, 0)'],
+                   'no_renew(self)',
+                   ('C05', 'ident_inv(self)'), ('C05', 'in_range_ok(self)'),
+                   ('C05', 'forall(lambda j: implies(0 <= j and j < len(queue) and queue[j].blacklisted, '
+                           '       queue[j].server is None), "Int")')],
          ensures=['apps_ok(self)', 'srv_ok(servers)', 'link_ok(self, servers)', 'back_ok(self, servers)',
-                  'ident_ok(self)', 'all_strategies_ok()', 'strat_nodes_ok()', 'renew_ok(queue, 0)'],
+                  'ident_ok(self)', 'all_strategies_ok()', 'strat_nodes_ok()', 'no_renew(self)',
+                  ('C05', 'ident_inv(self)'), ('C05', 'in_range_ok(self)'),
+                  # clause 4: at the end of the cycle an instance that is not placed holds no identity
+                  ('C05', 'forall(lambda j: implies(0 <= j and j < len(queue), unplaced_free(queue[j])), "Int")')],
          modifies=FIND_MODIFIES, props=['C01', 'C03', 'C05'])
 invariant(M + ':Cell._find_placements', 0, 'for app in queue',
           ['srv_ok(servers)', 'link_ok(self, servers)', 'back_ok(self, servers)', 'ident_ok(self)',
            'all_strategies_ok()', 'strat_nodes_ok()',
-           'evicted_ok(evicted, queue, servers, _i)', 'renew_ok(queue, 0)',
+           'evicted_ok(evicted, queue, servers, _i)', 'no_renew(self)',
            'implies(_i < len(queue), not queue[_i].renew)',
-           'alive(placement_tracker)'])
+           'alive(placement_tracker)',
+           ('C05', 'ident_inv(self)'), ('C05', 'in_range_ok(self)'),
+           ('C05', 'forall(lambda j: implies(0 <= j and j < len(queue) and queue[j].blacklisted, '
+                   '       queue[j].server is None), "Int")'),
+           ('C05', 'forall(lambda j: implies(0 <= j and j < _i, unplaced_free(queue[j])), "Int")')])
 invariant(M + ':Cell._find_placements', 1, 'for evicted_app in reversed_queue',
           ['srv_ok(servers)', 'link_ok(self, servers)', 'back_ok(self, servers)', 'ident_ok(self)',
            'all_strategies_ok()', 'strat_nodes_ok()',
            'app.server is None', 'app.identity_group_ref is None or app.identity is not None',
            '_i <= len(queue) - 1 - qidx(queue, app)',
            'evicted_ok(evicted, queue, servers, qidx(queue, app) + 1)',
-           'renew_ok(queue, 0)'])
+           'no_renew(self)',
+           ('C05', 'ident_inv(self)'), ('C05', 'in_range_ok(self)'),
+           ('C05', 'forall(lambda j: implies(0 <= j and j < len(queue) and queue[j].blacklisted, '
+                   '       queue[j].server is None), "Int")'),
+           ('C05', 'forall(lambda j: implies(0 <= j and j < qidx(queue, app), unplaced_free(queue[j])), "Int")')])
 
 
 # ------------------------------------------------------------------ pre-passes of a cycle
@@ -272,6 +329,15 @@ def weak_link(cell, servers):
     return forall(lambda n: implies(n in cell.apps, cell.apps[n].server is None or
                                     cell.apps[n].server not in servers or
                                     placed_ok(cell.apps[n], servers)), 'Name')
+
+
+@spec
+def ident_weak(cell, servers):
+    """Between cycles: an instance naming a member server holds its identity."""
+    return forall(lambda n: implies(n in cell.apps and cell.apps[n].server is not None and
+                                    cell.apps[n].server in servers,
+                                    cell.apps[n].identity_group_ref is None or
+                                    cell.apps[n].identity is not None), 'Name')
 
 
 @spec
@@ -295,40 +361,41 @@ PREPASS_MODIFIES = [
 contract(M + ':Cell._fix_invalid_placements',
          types={'queue': 'List[Application]', 'servers': 'Dict[Name,Server]'},
          requires=['covers(queue, self)', 'apps_ok(self)', 'srv_ok(servers)', 'back_ok(self, servers)',
-                   'weak_link(self, servers)'],
-         ensures=['apps_ok(self)', 'srv_ok(servers)', 'back_ok(self, servers)', 'link_ok(self, servers)'],
+                   'weak_link(self, servers)', 'ident_weak(self, servers)'],
+         ensures=['apps_ok(self)', 'srv_ok(servers)', 'back_ok(self, servers)', 'link_ok(self, servers)',
+                  'ident_ok(self)'],
          modifies=[('Application.server', 'lambda a: True'), ('Application.evicted', 'lambda a: True'),
                    ('Application.identity', 'lambda a: True'), ('IdentityGroup.available', 'lambda g: True')],
          props=['C01', 'C05'])
 invariant(M + ':Cell._fix_invalid_placements', 0, 'for app in queue',
-          ['srv_ok(servers)', 'back_ok(self, servers)', 'weak_link(self, servers)',
+          ['srv_ok(servers)', 'back_ok(self, servers)', 'weak_link(self, servers)', 'ident_weak(self, servers)',
            # instances already visited satisfy the strong link
            'forall(lambda j: implies(0 <= j and j < _i, placed_ok(queue[j], servers)), "Int")'])
 
 contract(M + ':Cell._handle_blacklisted_apps',
          types={'queue': 'List[Application]', 'servers': 'Dict[Name,Server]'},
          requires=['covers(queue, self)', 'apps_ok(self)', 'srv_ok(servers)', 'back_ok(self, servers)',
-                   'link_ok(self, servers)', 'tree_ok(servers)'],
-         ensures=['apps_ok(self)', 'srv_ok(servers)', 'back_ok(self, servers)', 'link_ok(self, servers)',
+                   'link_ok(self, servers)', 'tree_ok(servers)', 'ident_ok(self)'],
+         ensures=['apps_ok(self)', 'srv_ok(servers)', 'back_ok(self, servers)', 'link_ok(self, servers)', 'ident_ok(self)',
                   ('C08', 'forall(lambda n: implies(n in self.apps and self.apps[n].blacklisted, '
                           '       self.apps[n].server is None), "Name")')],
          modifies=PREPASS_MODIFIES, props=['C01', 'C05', 'C08'])
 invariant(M + ':Cell._handle_blacklisted_apps', 0, 'for app in queue',
-          ['srv_ok(servers)', 'back_ok(self, servers)', 'link_ok(self, servers)',
+          ['srv_ok(servers)', 'back_ok(self, servers)', 'link_ok(self, servers)', 'ident_ok(self)',
            ('C08', 'forall(lambda j: implies(0 <= j and j < _i and queue[j].blacklisted, '
                    '       queue[j].server is None), "Int")')])
 
 contract(M + ':Cell._fix_invalid_identities',
          types={'queue': 'List[Application]', 'servers': 'Dict[Name,Server]'},
          requires=['covers(queue, self)', 'apps_ok(self)', 'srv_ok(servers)', 'back_ok(self, servers)',
-                   'link_ok(self, servers)', 'tree_ok(servers)'],
-         ensures=['apps_ok(self)', 'srv_ok(servers)', 'back_ok(self, servers)', 'link_ok(self, servers)',
+                   'link_ok(self, servers)', 'tree_ok(servers)', 'ident_ok(self)'],
+         ensures=['apps_ok(self)', 'srv_ok(servers)', 'back_ok(self, servers)', 'link_ok(self, servers)', 'ident_ok(self)',
                   ('C05', 'forall(lambda n: implies(n in self.apps and self.apps[n].identity is not None and '
                           '  self.apps[n].identity_group_ref is not None, '
                           '  self.apps[n].identity < self.apps[n].identity_group_ref.count), "Name")')],
          modifies=PREPASS_MODIFIES, props=['C01', 'C05'])
 invariant(M + ':Cell._fix_invalid_identities', 0, 'for app in queue',
-          ['srv_ok(servers)', 'back_ok(self, servers)', 'link_ok(self, servers)',
+          ['srv_ok(servers)', 'back_ok(self, servers)', 'link_ok(self, servers)', 'ident_ok(self)',
            ('C05', 'forall(lambda j: implies(0 <= j and j < _i and queue[j].identity is not None and '
                    '  queue[j].identity_group_ref is not None, '
                    '  queue[j].identity < queue[j].identity_group_ref.count), "Int")')])
@@ -345,20 +412,21 @@ def moved_ok(tbm, server, lo):
 contract(M + ':Cell._handle_inactive_servers',
          types={'servers': 'Dict[Name,Server]', 'to_be_moved': 'List[Application]'},
          requires=['apps_ok(self)', 'srv_ok(servers)', 'back_ok(self, servers)', 'link_ok(self, servers)',
-                   'tree_ok(servers)'],
-         ensures=['apps_ok(self)', 'srv_ok(servers)', 'back_ok(self, servers)', 'link_ok(self, servers)'],
+                   'tree_ok(servers)', 'ident_ok(self)'],
+         ensures=['apps_ok(self)', 'srv_ok(servers)', 'back_ok(self, servers)', 'link_ok(self, servers)',
+                  'ident_ok(self)'],
          modifies=PREPASS_MODIFIES + ['self.next_event_at'], props=['C01', 'C05', 'C08'])
 invariant(M + ':Cell._handle_inactive_servers', 0, 'for server in servers.values()',
-          ['srv_ok(servers)', 'back_ok(self, servers)', 'link_ok(self, servers)'])
+          ['srv_ok(servers)', 'back_ok(self, servers)', 'link_ok(self, servers)', 'ident_ok(self)'])
 invariant(M + ':Cell._handle_inactive_servers', 1, 'for (name, app) in server.apps.items()',
-          ['srv_ok(servers)', 'back_ok(self, servers)', 'link_ok(self, servers)',
+          ['srv_ok(servers)', 'back_ok(self, servers)', 'link_ok(self, servers)', 'ident_ok(self)',
            'server.apps == at_loop_entry(server.apps)',
            'forall(lambda p: implies(0 <= p and p < len(to_be_moved), to_be_moved[p].name in server.apps and '
            '       server.apps[to_be_moved[p].name] == to_be_moved[p] and _pos(to_be_moved[p].name) < _i), "Int")',
            'forall(lambda p, q: implies(0 <= p and p < q and q < len(to_be_moved), '
            '       _pos(to_be_moved[p].name) < _pos(to_be_moved[q].name)), "Int", "Int")'])
 invariant(M + ':Cell._handle_inactive_servers', 2, 'for app in to_be_moved',
-          ['srv_ok(servers)', 'back_ok(self, servers)', 'link_ok(self, servers)',
+          ['srv_ok(servers)', 'back_ok(self, servers)', 'link_ok(self, servers)', 'ident_ok(self)',
            'moved_ok(to_be_moved, server, _i)'])
 
 
@@ -405,11 +473,6 @@ def cycle_pre(cell, servers):
             forall(lambda n: implies(n in cell.apps, not cell.apps[n].renew), 'Name'))
 
 
-@spec
-def no_renew(cell):
-    return forall(lambda n: implies(n in cell.apps, not cell.apps[n].renew), 'Name')
-
-
 contract(M + ':Cell.schedule_alloc',
          types={'allocation': 'Allocation', 'servers': 'Dict[Name,Server]',
                 'util_queue': 'List[Tuple[Int,Ext,Ext,Int,Int,Application]]', 'queue': 'List[Application]'},
@@ -425,12 +488,9 @@ contract(M + ':Cell.schedule',
                 'all_apps': 'List[Application]',
                 'before': 'List[Tuple[Name,Opt[Name],Opt[Real]]]', 'after': 'List[Tuple[Opt[Name],Opt[Real]]]'},
          requires=['cls_is(self, "Cell")', 'cycle_pre(self, MEMBERS)', 'weak_link(self, MEMBERS)',
-                   # an instance that names a member server holds its identity (left by the previous cycle)
-                   'forall(lambda n: implies(n in self.apps and self.apps[n].server is not None and '
-                   '       self.apps[n].server in MEMBERS, self.apps[n].identity_group_ref is None or '
-                   '       self.apps[n].identity is not None), "Name")',
+                   'ident_weak(self, MEMBERS)',
                    'forall(lambda l: implies(l in self.partitions, '
-                   '       alloc_in_cell(self.partitions[l].allocation, self)), "Name")'],
+                   '       alloc_in_cell(self.partitions[l].allocation, self)), "Opt[Name]")'],
          ensures=[('C01', 'srv_ok(MEMBERS)'), ('C01', 'link_ok(self, MEMBERS)'), ('C01', 'back_ok(self, MEMBERS)'),
                   ('C01', 'apps_ok(self)'), ('C05', 'ident_ok(self)')],
          modifies=FIND_MODIFIES + [('Application.final_rank', 'lambda a: True'),
